@@ -40,15 +40,15 @@ struct Ctx {
     sum: Summary,
     shards: CoqShards,
     /// Coq evaluation budget per case kind (queue, submit, map, reduce, collector)
-    budget: [usize; 7],
-    used: [usize; 7],
+    budget: [usize; 8],
+    used: [usize; 8],
     rng: Rng,
     thorough: bool,
 }
 
 impl Ctx {
     fn coq(&mut self, kind: u32, a: u64, b: u64, ops: &[i64], obs: &[i64], case: &Value, force: bool) {
-        let k = (kind as usize).min(6);
+        let k = (kind as usize).min(7);
         if !force && self.used[k] >= self.budget[k] { return; }
         self.used[k] += 1;
         let term = format!(
@@ -739,7 +739,6 @@ fn stream_case(cx: &mut Ctx, rt: usize, nstages: usize, buffer: usize, slow: boo
     let cell = "Pipeline::execute_stream";
     let case = json!({"cell": "stream", "kind": 13, "rt": rt, "stages": nstages, "buffer": buffer, "slow": slow, "ops": xs});
     cx.sum.eval(cell, &format!("st {} {} {} {} {:?}", rt, nstages, buffer, slow, xs), xs.len() >= 2);
-    cx.sum.cell_status(cell, "S-only");
     let xv = xs.to_vec();
     let n = xs.len();
     let r = guarded(|| with_rt(rt, async move {
@@ -779,6 +778,10 @@ fn stream_case(cx: &mut Ctx, rt: usize, nstages: usize, buffer: usize, slow: boo
         Err(p) => cx.sum.fail(cell, None, case, &format!("panicked: {}", p)),
         Ok(Err(_)) => cx.sum.fail(cell, None, case, "did not return within 8 s"),
         Ok(Ok((ok, outs))) => {
+            // the verdict, and the output of a successful run, are schedule-independent: compare with the model
+            let mut obs: Vec<i64> = vec![if ok { 1 } else { 0 }];
+            if ok { obs.extend_from_slice(&outs); }
+            cx.coq(7, nstages as u64, if slow { 1 } else { 0 }, xs, &obs, &case, false);
             if all_ok {
                 if !ok || outs != want { cx.sum.fail(cell, None, case, &format!("ok={} outputs {:?}, want {:?}", ok, outs, want)); }
             } else if ok {
@@ -972,14 +975,14 @@ pub fn run(args: &Args) {
     let mut cx = Ctx {
         sum: Summary::new("C18", "corpus; all WorkStealingQueue histories of <= 6 operations over push(prio 0/1, stealable or not)/pop_local/steal/balance + random histories around the capacity; the running executor with 1, 2, 3, 4 workers on current-thread and multi-thread runtimes, task counts around workers*capacity, around the global overflow and around the balance trigger (100 executed), mixed priorities/stealability/task behaviour, workers idle or not when the tasks arrive; parallel_map/for_each/reduce, process_batch, execute_stream, BatchCollector and the yield/aio helpers on vectors of length 0..40 with and without failing, panicking and timed-out items, concurrency limits around the input length. A case is non-trivial when it has >= 2 tasks/items (queue histories: >= 2 pushes and a steal or balance); distinct = distinct canonical case text"),
         shards: CoqShards::new(&header(), 300),
-        budget: if args.thorough { [5000, 600, 1200, 1200, 1200, 600, 4000] } else { [420, 60, 160, 130, 130, 60, 420] },
-        used: [0; 7],
+        budget: if args.thorough { [5000, 600, 1200, 1200, 1200, 600, 4000, 1200] } else { [400, 60, 150, 120, 120, 60, 400, 120] },
+        used: [0; 8],
         rng: Rng::new(args.seed),
         thorough: args.thorough,
     };
     for c in ["WorkStealingQueue", "WorkStealingExecutor::submit", "FiberPool::parallel_map", "concurrency::parallel_map", "concurrency::join_all",
               "FiberPool::spawn_batch", "FiberPool::parallel_reduce", "Pipeline::process_batch", "BatchCollector",
-              "WorkStealingExecutor/worker_loop order (1 worker)", "WorkStealingExecutor/history (hook)"] {
+              "WorkStealingExecutor/worker_loop order (1 worker)", "WorkStealingExecutor/history (hook)", "Pipeline::execute_stream"] {
         cx.sum.cell_status(c, "M+S");
     }
     cx.sum.cell_status("concurrency::parallel_reduce", "S-only");
